@@ -20,3 +20,19 @@ def make_unary_async(key):
         return await CURRENT.abody(key, {"a": a})
 
     return f
+
+
+def make_salted(base, salt):
+    """Two captured variables; siblings may capture values of different TYPE that print alike (1 vs "1")."""
+
+    def f(a):
+        return CURRENT.body(base + ":" + repr(salt), {"a": a})
+
+    return f
+
+
+def make_salted_async(base, salt):
+    async def f(a):
+        return await CURRENT.abody(base + ":" + repr(salt), {"a": a})
+
+    return f
